@@ -508,7 +508,9 @@ pub fn check_table_invariants(name: &str, t: &TableObs) -> Result<(), Finding> {
     for (ri, r) in t.rows.iter().enumerate() {
         for (ci, v) in r.iter().enumerate() {
             let col = &t.cols[ci];
-            // a null read from a non-nullable string column counts as ""
+            // a null read from a non-nullable string column counts as "": the format has ONE representation for
+            // both, and the repository's own unit test (column::tests::valid_column_value) pins "" as a valid value
+            // of a non-nullable string column, so the cell cannot read back as anything else
             let judged = if v.is_null() && !col.nullable && col.ty.is_str() { V::Str(String::new()) } else { v.clone() };
             if ref_valid(col, &judged) == Verdict::Invalid {
                 return Err(finding(
